@@ -306,21 +306,21 @@ fn groups(g: &mut Groups) {
         "single_thread",
         40_000,
         2_000_000,
-        proptest::collection::vec(op(), 0..=120).prop_map(|ops| Case { threads: vec![ops] }),
+        || proptest::collection::vec(op(), 0..=120).prop_map(|ops| Case { threads: vec![ops] }),
         check_case,
     );
     g.prop(
         "long_sequences",
         400,
         20_000,
-        proptest::collection::vec(op(), 500..=3000).prop_map(|ops| Case { threads: vec![ops] }),
+        || proptest::collection::vec(op(), 500..=3000).prop_map(|ops| Case { threads: vec![ops] }),
         check_case,
     );
     g.prop(
         "threads",
         4_000,
         200_000,
-        proptest::collection::vec(proptest::collection::vec(op(), 0..=150), 2..=8).prop_map(|threads| Case { threads }),
+        || proptest::collection::vec(proptest::collection::vec(op(), 0..=150), 2..=8).prop_map(|threads| Case { threads }),
         check_case,
     );
     g.enumerate(
